@@ -230,3 +230,42 @@ func Par1Singular(volumes []int, files []int) bool {
 	}
 	return false
 }
+
+// Par2ConstantLog returns n such that the i-th PAR2 constant is 2^n.
+func Par2ConstantLog(i int) int { return par2Exponents(i + 1)[i] }
+
+// Exp2 returns 2^n in GF(2^16) (n >= 0).
+func Exp2(n int) uint16 {
+	buildTables16()
+	return exp16[n%65535]
+}
+
+// ZeroMinorTriples searches column triples (a<b<c) below n whose 3x3
+// matrix with rows = the given three exponents (entries c_col^e) has
+// determinant zero. In characteristic 2 the determinant is the plain
+// sum of the six permutation products.
+func ZeroMinorTriples(e [3]int, n int, limit int) [][3]int {
+	buildTables16()
+	logs := make([]int, n)
+	for i := range logs {
+		logs[i] = Par2ConstantLog(i) % 65535
+	}
+	var out [][3]int
+	for a := 0; a < n; a++ {
+		for b := a + 1; b < n; b++ {
+			for c := b + 1; c < n; c++ {
+				la, lb, lc := logs[a], logs[b], logs[c]
+				d := exp16[(la*e[0]+lb*e[1]+lc*e[2])%65535] ^ exp16[(la*e[0]+lc*e[1]+lb*e[2])%65535] ^
+					exp16[(lb*e[0]+la*e[1]+lc*e[2])%65535] ^ exp16[(lb*e[0]+lc*e[1]+la*e[2])%65535] ^
+					exp16[(lc*e[0]+la*e[1]+lb*e[2])%65535] ^ exp16[(lc*e[0]+lb*e[1]+la*e[2])%65535]
+				if d == 0 {
+					out = append(out, [3]int{a, b, c})
+					if len(out) >= limit {
+						return out
+					}
+				}
+			}
+		}
+	}
+	return out
+}
